@@ -2,6 +2,8 @@
 mod util;
 mod c18;
 mod c13;
+mod tyval;
+mod c10;
 mod c19;
 
 fn main() {
@@ -15,6 +17,8 @@ fn main() {
         ["c13", "record", runs, ops, path] => c13::record(runs.parse().unwrap(), ops.parse().unwrap(), path),
         ["c19", "replay", path] => c19::replay(path),
         ["c19", "record", runs, path] => c19::record(runs.parse().unwrap(), path),
+        ["c10", "replay", path] => c10::replay(path),
+        ["c10", "record", runs, path] => c10::record(runs.parse().unwrap(), path),
         _ => {
             eprintln!("usage: vh <prop> <replay|record> ...");
             std::process::exit(2);
